@@ -70,6 +70,25 @@ def run(tier):
         sk = pypi_skeleton(rnd, q)
         sk["alt"] = i
         pj.append(dict(base, harness="VerifC05PyPI", params=sk))
+    # Maven, directed family: exclusion chains (an excluding declaration below another excluding declaration) and the
+    # intermediate artifact as the other root, so that whatever the first resolution leaves behind for an
+    # exclusion string meets the same string in another context
+    import itertools
+    for a, b, c in itertools.permutations([1, 2, 3]):
+        for inner in (a, b, c):
+            sk = {"allsoft": 1, "mgt": 0, "mgtr": 0, "alt": 0}
+            for s_ in range(3):
+                sk.update({"r%dt" % s_: 0, "r%dr" % s_: 0, "r%dk" % s_: 0, "r%dx" % s_: 0})
+            sk.update({"r0t": a, "r0k": 4, "r0x": c - 1})
+            for pi in range(3):
+                sk["nv%d" % pi] = 1
+                for vi in range(3):
+                    sk.update({"p%d%dt" % (pi, vi): 0, "p%d%dr" % (pi, vi): 0, "p%d%dk" % (pi, vi): 0, "p%d%dx" % (pi, vi): 0})
+            sk.update({"p%d0t" % (a - 1): b, "p%d0k" % (a - 1): 4, "p%d0x" % (a - 1): inner - 1})
+            sk.update({"p%d0t" % (b - 1): c})
+            # the other root: the first version of artifact a (entries are listed root, then g:a, g:b, g:c)
+            sk["alt"] = a - 1
+            mj.append(dict(base, harness="VerifC05Maven", params=sk))
     # concurrency clause, decided sequentially (shared-state discipline on one Resolve call)
     rnd2 = random.Random(20261005)
     ns = 40 if q else 600
